@@ -28,13 +28,15 @@ import fam_docemit  # noqa: E402
 ID = "C18"
 COQ_PROP = "C18"
 FAMILIES = [(fam_docemit, 2500, 30000)]
-TECHNIQUE = ("Coq proof (textwrap.fill model: width bound, word preservation, clean line edges, for every width and "
-             "unbounded text; ReST prose re-join transparency; byte-identity of wrapped and unwrapped docstrings when "
-             "nothing needs wrapping) + differential correspondence of DocEmit.v/Fill.v against the emitters at the "
-             "default width in-process and at six other widths in child processes + oracle sweep over widths")
+TECHNIQUE = ("Coq proof (model of pure_utils.fill = textwrap.fill without long-word / hyphen breaking: every line fits or "
+             "is a single over-long word, word preservation, clean line edges, for every width and unbounded text; ReST "
+             "prose re-join transparency; whole-docstring word preservation in three styles; byte-identity of wrapped and "
+             "unwrapped docstrings when nothing needs wrapping) + differential correspondence of DocEmit.v/Fill.v against "
+             "the emitters at the default width in-process and at six other widths in child processes + oracle sweep "
+             "over widths")
 TRUSTED = [
-    "Fill.v models textwrap.fill only on its fragment (no tab, no breakable hyphen, words no longer than the width); "
-    "outside it the model declines and the oracle's failures are finding classes",
+    "Fill.v models pure_utils.fill (textwrap.fill, break_long_words=False, break_on_hyphens=False) on text without "
+    "tabs; tab expansion is column dependent and declined (oracle inputs with a tab are skipped as unmodelled)",
     "the parsers (doctrans.parse.*, docstring_parsers) are not modelled by this layer: parse-level transparency is "
     "established by the oracle sweep, and by proof only where wrapped and unwrapped text are byte-identical",
     "finding_class_C18 is a syntactic over-approximation of the inputs whose wrapping is not transparent "
@@ -251,7 +253,7 @@ def oracle(rng, tier):
         "evaluations": len(points),
         "distinct_nontrivial": len(seen),
         "rule": "widths %s x word_wrap on/off x generated IRs (gen_ir clean and general; prose/summaries/types stretched "
-                "to below, at and far above the width; long words and hyphenated words seeded) x six emitters, one child "
+                "to below, at and far above the width; words longer than the width and hyphenated words seeded) x six emitters, one child "
                 "process per width; non-trivial = distinct (width, emitter, IR) inside the guard on which wrapping changed "
                 "the artefact and both pipelines parsed to the same interface" % (["unset" if w is None else w for w in widths],),
         "failures": failures,
